@@ -425,6 +425,8 @@ def main(tier, replay=None):
                 print(out.strip()[:2000])
     descs, meta = generate(chk)
     res = vf.coq_check_props(AREA)
+    keep = [t for t in res["theorems"] if t.startswith("C16_")]          # coq/C16 also holds the C18 theorems (checks/C18.py)
+    res = dict(res, theorems=keep, assumptions={k: v for k, v in res["assumptions"].items() if k in keep})
     chk.proof_result(res, AREA)
     if descs:
         n_meth, n_ok, partial = structural_c16(chk, descs)
